@@ -85,6 +85,7 @@ func Reset() {
 	Failed, Events, Reached, Diverged = nil, nil, nil, nil
 	Facts = map[string]string{}
 	clockStarted, clockNS, SleepCount, MaxSleeps = false, 0, 0, 0
+	ConcreteClockStep = 0
 	ClockAbs, ClockFrozen, clockFrozen = false, false, false
 	clockFrozen = false
 	Files = map[string]string{}
@@ -342,8 +343,22 @@ func nowAbs() time.Time {
 	return TimeAt(clockNS)
 }
 
+// ConcreteClockStep > 0 switches to a deterministic clock: it starts at 1 s after the
+// epoch and every reading advances it by ConcreteClockStep ns (Sleep adds its duration).
+// For harnesses whose claim does not depend on timing: no clock draws, no solver
+// queries for deadline comparisons. Set it before the first clock reading.
+var ConcreteClockStep int64
+
 // Now returns a non-decreasing instant in [1, 2^61+k·2^50) ns after the epoch.
 func Now() time.Time {
+	if ConcreteClockStep > 0 {
+		if !clockStarted {
+			clockNS = 1_000_000_000
+			clockStarted = true
+		}
+		clockNS += ConcreteClockStep
+		return TimeAt(clockNS)
+	}
 	if ClockAbs {
 		return nowAbs()
 	}
@@ -382,6 +397,17 @@ var (
 // Sleep advances the clock by at least d.
 func Sleep(d time.Duration) {
 	Now()
+	if ConcreteClockStep > 0 {
+		if d > 0 {
+			clockNS += int64(d)
+		}
+		SleepCount++
+		if MaxSleeps > 0 && SleepCount >= MaxSleeps {
+			clockNS += clockStep
+		}
+		Event("sleep")
+		return
+	}
 	if clockFrozen {
 		Event("sleep")
 		return
